@@ -9,7 +9,10 @@ import (
 
 	"github.com/opsidian/parsley/ast"
 	"github.com/opsidian/parsley/ast/interpreter"
+	"github.com/opsidian/parsley/data"
+	"github.com/opsidian/parsley/parser"
 	"github.com/opsidian/parsley/parsley"
+	"github.com/opsidian/parsley/text"
 
 	"verif/mc/explore"
 )
@@ -697,6 +700,139 @@ func c13One(res *explore.Result, s *shape, caps []int, listAlts int, verbose boo
 			if !reflect.DeepEqual(append([]string{}, t.rec.log...), append([]string{}, wantLog...)) || gotErr != wantErr || got != want {
 				viol("Transform", fmt.Sprintf("Transform (failure injected at n%d): calls %v, result %s error %q; model: calls %v, result %s error %q", failAt, t.rec.log, got, gotErr, wantLog, want, wantErr))
 				break
+			}
+		}
+	}
+
+	// ---- parsley.Parse with BOTH passes enabled on the context: the tree is transformed first and the static check
+	// then runs over the TRANSFORMED tree (the one Parse returns); every single failure point
+	{
+		probe := buildTree(s, caps, listAlts)
+		// reach: the nodes Transform gets to (a chain of library non-terminals without a transformer from the root)
+		replaced := map[int]bool{}
+		var tlog []int
+		var reach func(m *mnode)
+		reach = func(m *mnode) {
+			if m.kind == 'N' || m.kind == 'Z' {
+				if hasTransformer(m.cap) {
+					replaced[m.id] = true
+					tlog = append(tlog, m.id)
+					return
+				}
+				if m.kind == 'N' {
+					for _, k := range m.kids {
+						reach(k)
+					}
+				}
+			}
+		}
+		if probe.alts == nil {
+			reach(probe.root)
+		}
+		// checkers that run afterwards, in post-order over what is left of the tree
+		var clog []int
+		var post func(m *mnode)
+		post = func(m *mnode) {
+			if replaced[m.id] {
+				return
+			}
+			if m.kind == 'L' {
+				post(m.kids[0])
+				return
+			}
+			for _, k := range m.kids {
+				post(k)
+			}
+			if (m.kind == 'N' || m.kind == 'Z') && hasChecker(m.cap) {
+				clog = append(clog, m.id)
+			}
+		}
+		post(probe.root)
+		fails := []int{-1}
+		fails = append(fails, tlog...)
+		for _, id := range clog {
+			dup := false
+			for _, x := range fails {
+				dup = dup || x == id
+			}
+			if !dup {
+				fails = append(fails, id)
+			}
+		}
+		for _, failAt := range fails {
+			t := buildTree(s, caps, listAlts)
+			t.rec.failAt = failAt
+			res.Add("transitions", 1)
+			f := text.NewFile("f", []byte(strings.Repeat("x", 64)))
+			ctx := parsley.NewContext(parsley.NewFileSet(f), text.NewReader(f))
+			ctx.EnableTransformation()
+			ctx.EnableStaticCheck()
+			root := parser.Func(func(*parsley.Context, data.IntMap, parsley.Pos) (parsley.Node, data.IntSet, parsley.Error) {
+				return t.rootN, data.EmptyIntSet, nil
+			})
+			var out parsley.Node
+			var err error
+			if pm := guard(func() { out, err = parsley.Parse(ctx, root) }); pm != "" {
+				viol("panic:Parse", "Parse with transformation and static check enabled panicked: "+pm)
+				break
+			}
+			var wantLog []string
+			wantErr := ""
+			for _, id := range tlog {
+				wantLog = append(wantLog, fmt.Sprintf("transform n%d", id))
+				if id == failAt {
+					wantErr = fmt.Sprintf("transform of n%d failed", id)
+					break
+				}
+			}
+			schema := map[int]string{}
+			if wantErr == "" {
+				for _, id := range clog {
+					m := t.nodes[id]
+					var seen []string
+					for _, k := range m.kids {
+						switch {
+						case replaced[k.id]:
+							seen = append(seen, "<nil>") // the transformer's replacement carries no schema
+						case k.kind == 'T':
+							seen = append(seen, fmt.Sprintf("lit%d", k.id))
+						default:
+							if sc, ok := schema[k.id]; ok {
+								seen = append(seen, sc)
+							} else {
+								seen = append(seen, "<nil>")
+							}
+						}
+					}
+					wantLog = append(wantLog, fmt.Sprintf("check n%d sees %v", id, seen))
+					if id == failAt {
+						wantErr = fmt.Sprintf("check of n%d failed", id)
+						break
+					}
+					schema[id] = fmt.Sprintf("s%d", id)
+				}
+			}
+			gotErr := ""
+			if err != nil {
+				gotErr = err.Error()
+			}
+			okErr := (wantErr == "" && gotErr == "") || (wantErr != "" && strings.HasPrefix(gotErr, wantErr))
+			if !reflect.DeepEqual(append([]string{}, t.rec.log...), append([]string{}, wantLog...)) || !okErr || (wantErr == "") != (out != nil) {
+				viol("Parse:transform+staticcheck", fmt.Sprintf("Parse with both passes enabled (failure injected at n%d): calls %v, error %q, node returned: %v; model: calls %v, error %q", failAt, t.rec.log, gotErr, out != nil, wantLog, wantErr))
+				break
+			}
+			if wantErr == "" {
+				bad := false
+				for id, want := range schema {
+					if got := t.nodes[id].real.Schema(); fmt.Sprint(got) != want {
+						viol("Parse:transform+staticcheck", fmt.Sprintf("Parse with both passes enabled: Schema() of n%d in the returned tree is %v, model %q", id, got, want))
+						bad = true
+						break
+					}
+				}
+				if bad {
+					break
+				}
 			}
 		}
 	}
